@@ -51,7 +51,8 @@ StartsWith(s, p) == Len(s) >= Len(p) /\ SubSeq(s, 1, Len(p)) = p
 \* left the owner's client must have been received.  `upto` = 0 means "up to the end".
 LastOf(S, task) == IF task \in DOMAIN S.lastAny THEN S.lastAny[task] ELSE 0
 Lost(S, task, srv, all, sub, upto) ==
-  \E e \in S.emitted :
+  \* (not judged in runs with an injected termination cause: a dying client loses what it had queued)
+  S.cause = "" /\ S.faulty = {} /\ \E e \in S.emitted :
      /\ e[1] = srv /\ (all \/ e[2] = sub)
      /\ e[3] \in DOMAIN S.sentAt
      /\ e[3] > LastOf(S, task)
@@ -87,7 +88,7 @@ OnApi(S, r) ==
            LET k == r.d.cookie
                got == IF k \in DOMAIN S1.nextItem THEN S1.nextItem[k] - 1 ELSE 0
                sent == IF k \in DOMAIN S1.sentOk THEN S1.sentOk[k] ELSE 0 IN
-           IF got < sent THEN Bad(S1, "C05", "items the sender handed over successfully never reached the receiver")
+           IF got < sent /\ S1.cause = "" /\ S1.faulty = {} THEN Bad(S1, "C05", "items the sender handed over successfully never reached the receiver")
            ELSE S1
       [] r.op = "events" /\ r.d.seen < r.d.want ->
            \* the stream ended (service destroyed): everything sent before must have arrived
